@@ -7,6 +7,7 @@ import (
 	"github.com/hashicorp/hcl/v2"
 	"github.com/hashicorp/hcl/v2/hclsyntax"
 	"github.com/zclconf/go-cty/cty"
+	"github.com/zclconf/go-cty/cty/convert"
 
 	m "verif/harness/model"
 )
@@ -115,6 +116,7 @@ func (w *originWalker) anyExpr(expr hclsyntax.Expression, selfRefs bool) {
 func (w *originWalker) cons(c m.ConsM, expr hclsyntax.Expression, selfRefs bool) {
 	switch c.K {
 	case "any":
+		w.illTyped(expr, c.Ty.Cty())
 		w.anyExpr(expr, selfRefs)
 	case "oneof-foreach":
 		w.anyExpr(expr, selfRefs)
@@ -282,4 +284,85 @@ func ExpectedOrigins(root *m.BodyM, body *hclsyntax.Body, funcs map[string]m.Fun
 	sort.Slice(uniq, func(i, j int) bool { return uniq[i].Start < uniq[j].Start })
 	om.Expected = uniq
 	return om
+}
+
+// illTyped marks as don't-care the parts of an expression that cannot have the
+// expected type: the statement speaks of places that admit an expression of the
+// constraint's type; what the library does with ill-typed parts (an operator
+// whose result cannot convert, an object item the type does not declare, a
+// surplus tuple element) is not decided.
+func (w *originWalker) illTyped(expr hclsyntax.Expression, ty cty.Type) {
+	if ty == cty.NilType || ty == cty.DynamicPseudoType {
+		return
+	}
+	switch e := expr.(type) {
+	case *hclsyntax.ParenthesesExpr:
+		w.illTyped(e.Expression, ty)
+	case *hclsyntax.BinaryOpExpr:
+		if e.Op == nil {
+			return
+		}
+		if _, err := convert.Convert(cty.UnknownVal(e.Op.Type), ty); err != nil {
+			w.om.DontCare = append(w.om.DontCare, regionOf(e.Range()))
+			w.om.Classes["ill-typed-operator"] = true
+			return
+		}
+		if ps := e.Op.Impl.Params(); len(ps) == 2 {
+			w.illTyped(e.LHS, ps[0].Type)
+			w.illTyped(e.RHS, ps[1].Type)
+		}
+	case *hclsyntax.UnaryOpExpr:
+		if e.Op == nil {
+			return
+		}
+		if _, err := convert.Convert(cty.UnknownVal(e.Op.Type), ty); err != nil {
+			w.om.DontCare = append(w.om.DontCare, regionOf(e.Range()))
+			w.om.Classes["ill-typed-operator"] = true
+			return
+		}
+		if ps := e.Op.Impl.Params(); len(ps) == 1 {
+			w.illTyped(e.Val, ps[0].Type)
+		}
+	case *hclsyntax.ConditionalExpr:
+		w.illTyped(e.Condition, cty.Bool)
+		w.illTyped(e.TrueResult, ty)
+		w.illTyped(e.FalseResult, ty)
+	case *hclsyntax.TupleConsExpr:
+		switch {
+		case ty.IsListType() || ty.IsSetType():
+			for _, x := range e.Exprs {
+				w.illTyped(x, ty.ElementType())
+			}
+		case ty.IsTupleType():
+			ets := ty.TupleElementTypes()
+			for i, x := range e.Exprs {
+				if i < len(ets) {
+					w.illTyped(x, ets[i])
+				} else {
+					w.om.DontCare = append(w.om.DontCare, regionOf(x.Range()))
+				}
+			}
+		default:
+			// a collection where a non-collection is expected
+			w.om.DontCare = append(w.om.DontCare, regionOf(e.Range()))
+		}
+	case *hclsyntax.ObjectConsExpr:
+		switch {
+		case ty.IsMapType():
+			for _, it := range e.Items {
+				w.illTyped(it.ValueExpr, ty.ElementType())
+			}
+		case ty.IsObjectType():
+			for _, it := range e.Items {
+				key, _ := it.KeyExpr.Value(nil)
+				if key.IsNull() || !key.IsWhollyKnown() || key.Type() != cty.String || !ty.HasAttribute(key.AsString()) {
+					w.om.DontCare = append(w.om.DontCare, regionOf(it.ValueExpr.Range()))
+					continue
+				}
+				w.illTyped(it.ValueExpr, ty.AttributeType(key.AsString()))
+			}
+		default:
+			w.om.DontCare = append(w.om.DontCare, regionOf(e.Range()))
+		}
+	}
 }
